@@ -58,6 +58,15 @@ def scan_features(prog, f):
         problems.append(("F2", "the haystack is not `subject[i..]` (RangeFrom): %s" % canon(rng)[:160]))
         return feats, problems
     ivar = strip(rng[5][0])
+    # F0: the scanned string is the value of `self.value`, required to be a string (into_string()?): anything else is an error in
+    # both modes, never its printed form
+    from ..lib.trace import canon_full as _cf
+    sc = _cf(subject)
+    m0 = re.match(r"^&?\*?(?:Deref::deref\(&)?\(Try::branch\(Value::into_string\(\(Try::branch\(\w+::(evaluate|evaluate_eager)\(&\*arg:self\.value, &\*arg:exec\)\) as Continue\)\.0\)\) as Continue\)\.0\)?$", sc)
+    if m0:
+        feats["F0"] = "subject = evaluate(self.value)?.into_string()?"
+    else:
+        problems.append(("F0", "the scanned string is not `evaluate(self.value)?.into_string()?` (%s): a non-string value is scanned in some rendered form instead of being an error" % sc[:160]))
     feats["F2"] = norm("captures(%s, subject[%s..])" % (canon(strip(tr.operand(ct["args"][0]))), "i"))
     if not re.search(r"\.regex$", canon(strip(tr.operand(ct["args"][0])))) or "self.arms" not in canon(tr.operand(ct["args"][0])):
         problems.append(("F2", "the regex is not the `regex` of an arm of self.arms"))
